@@ -16,10 +16,11 @@
 #define NWORDS 3
 #define WIDTH ((NWORDS * 32 / BPP) < 6 ? (NWORDS * 32 / BPP) : 6)
 
+static int vp_nread, vp_nwrite;
 static uint32_t vp_read (const void *src, int size)
-{ return size == 1 ? *(const uint8_t *) src : size == 2 ? *(const uint16_t *) src : *(const uint32_t *) src; }
+{ vp_nread++; return size == 1 ? *(const uint8_t *) src : size == 2 ? *(const uint16_t *) src : *(const uint32_t *) src; }
 static void vp_write (void *dst, uint32_t v, int size)
-{ if (size == 1) *(uint8_t *) dst = v; else if (size == 2) *(uint16_t *) dst = v; else *(uint32_t *) dst = v; }
+{ vp_nwrite++; if (size == 1) *(uint8_t *) dst = v; else if (size == 2) *(uint16_t *) dst = v; else *(uint32_t *) dst = v; }
 
 /* raw bits of pixel x, independent of pixman's FETCH_ macros */
 static uint32_t o_raw (const uint32_t *w, int x)
@@ -55,21 +56,33 @@ void harness (void)
     VP_SYM (x); VP_ASSUME (x >= 0 && x < WIDTH);
     img.format = FMT; img.width = WIDTH; img.height = 1; img.bits = mem; img.rowstride = NWORDS; img.indexed = 0;
 #ifdef ACCESSORS
-    img.read_func = vp_read; img.write_func = vp_write;
+    /* ACCESSORS: 3 both callbacks, 1 reader only, 2 writer only - an image with either callback must go through them */
+    img.read_func = (ACCESSORS & 1) ? vp_read : 0; img.write_func = (ACCESSORS & 2) ? vp_write : 0;
 #endif
     _pixman_bits_image_setup_accessors (&img);
     VP_ASSERT (img.fetch_pixel_32 && img.fetch_scanline_32 && img.store_scanline_32, "format present in the accessor table");
 
     uint32_t p = img.fetch_pixel_32 (&img, x, 0);
+#ifdef ACCESSORS
+    if (ACCESSORS & 1) VP_ASSERT (vp_nread > 0, "an image with a read callback is read through it");
+#endif
     VP_ASSERT (p == o_decode (o_raw (mem0, x)), "single-pixel reader widens by bit replication (absent alpha -> 1, absent colour -> 0)");
     line[WIDTH] = 0xdeadbeef;
     img.fetch_scanline_32 (&img, 0, 0, WIDTH, line, 0);
     VP_ASSERT (line[x] == p && line[WIDTH] == 0xdeadbeef, "scanline and single-pixel readers agree");
     for (i = 0; i < NWORDS; i++) VP_ASSERT (mem[i] == mem0[i], "reading does not modify memory");
 
+#if defined(ACCESSORS) && ACCESSORS == 1
+    /* reader-only image (a read-only source): stores are not defined for it */
+    VP_END ();
+    return;
+#endif
     /* store an arbitrary canonical value v at x */
     uint32_t v; VP_SYM (v);
     img.store_scanline_32 (&img, x, 0, 1, &v);
+#ifdef ACCESSORS
+    if (ACCESSORS & 2) VP_ASSERT (vp_nwrite > 0, "an image with a write callback is written through it");
+#endif
     for (i = 0; i < WIDTH; i++)
 	if (i != x) VP_ASSERT (o_raw (mem, i) == o_raw (mem0, i), "store leaves every other pixel's bits unchanged");
     for (i = 0; i < NWORDS; i++)
